@@ -663,6 +663,15 @@ func (lm *levelManager) compactBuildTables(lev int, cd compactDef) ([]*table, fu
 
 	topTables := cd.top
 	botTables := cd.bot
+	if cd.plan.IngestMode.UsesIngest() && len(topTables) > 1 {
+		// The merge below keeps, among equal keys, the entry of the iterator
+		// that comes first, and iteratorsReversed expects its tables oldest
+		// first. Ingest-buffer tables are kept in start-key order, so put them
+		// into file-id (flush) order first; otherwise an older table could win
+		// and the newer value would be dropped from the output for good.
+		topTables = append([]*table(nil), topTables...)
+		sort.Slice(topTables, func(i, j int) bool { return topTables[i].fid < topTables[j].fid })
+	}
 	iterOpt := &utils.Options{
 		IsAsc:          true,
 		AccessPattern:  utils.AccessPatternSequential,
